@@ -54,6 +54,7 @@ def check(ctx):
     _stepsizes(rep, model)
     _saved_iterates(ctx, rep)
     _power_method(rep, model)
+    _pdhg_steps(rep, model)
     return rep
 
 
@@ -541,3 +542,101 @@ def _check_estimate(est, selfadj):
             return None
     return ('the vector the operator is applied to, %s, is not normalised '
             '(the estimate can exceed the operator norm)' % vs.show(u))
+
+
+# --------------------------------------------------------------------------
+# R5: PDHG applies, in every iteration, the proximal operators of the *current*
+# step sizes: in  prox_{t f}(x - t L^* y)  and  prox_{s g^*}(y + s L xbar)
+# the parameter of the proximal equals the step in front of the operator term
+# (also after the acceleration update of tau / sigma)
+def _pdhg_steps(rep, model):
+    from . import c11
+    from .. import vs
+    from ..ratfun import Rat
+    from ..symex import PyRaise
+    fn = model.ctx.func(c11.PDHG, 'pdhg')
+    if fn is None:
+        raise AnalysisError('anchor vanished: pdhg')
+
+    def apps(lf, out):
+        """All applications (operator key, argument linear form), nested."""
+        for k, c in lf.items():
+            if isinstance(k, tuple) and k and k[0] == 'app':
+                arg = vs.thaw(k[2]) if isinstance(k[2], tuple) and k[2] and \
+                    isinstance(k[2][0], tuple) else None
+                if arg is not None:
+                    out.append((k[1], arg))
+                    apps(arg, out)
+        return out
+
+    def coef_sum(arg, opkeys):
+        tot = Rat.const(0)
+        for k, c in arg.items():
+            if isinstance(k, tuple) and k and k[0] == 'app' and k[1] in \
+                    opkeys:
+                tot = tot + c
+        return tot
+
+    variants = [('plain', {}), ('gamma_primal', {'gamma_primal':
+                                                 Rat.var('gp')}),
+                ('gamma_dual', {'gamma_dual': Rat.var('gd')})]
+    for vname, extra in variants:
+        for niter in (2, 3):
+            tag = 'pdhg[%s,niter=%d]' % (vname, niter)
+            try:
+                c11.PROX_STEPS.clear()
+
+                def b(e):
+                    x, y = e.vec('x', e.X), e.vec('y', e.Y)
+                    L = e.I.opsym('L', e.X, e.Y, True)
+                    kw = {'tau': Rat.var('tau'), 'sigma': Rat.var('sigma'),
+                          'y': y}
+                    kw.update(extra)
+                    return [x, e.fun('f', e.X), e.fun('g', e.Y), L,
+                            niter], kw, {'x': x, 'y': y}
+                r = c11.run(model, c11.PDHG, 'pdhg', b)
+                steps = dict(c11.PROX_STEPS)
+                found = []
+                for lbl in ('x', 'y'):
+                    apps(vs.thaw(r['final'][lbl]), found)
+                probs = []
+                nprox = 0
+                seen = set()
+                for opkey, arg in found:
+                    if not (isinstance(opkey, tuple) and opkey[0] == 'op'
+                            and opkey[1] in steps):
+                        continue
+                    sig = (opkey, vs.freeze(arg))
+                    if sig in seen:
+                        continue
+                    seen.add(sig)
+                    nprox += 1
+                    step = steps[opkey[1]]
+                    if opkey[1].startswith('prox[f,'):
+                        c = coef_sum(arg, {('adj', ('op', 'L'))})
+                        want = -step
+                    else:
+                        c = coef_sum(arg, {('op', 'L')})
+                        want = step
+                    d = c - want
+                    if not d.is_zero():
+                        # sqrt(z)^2 = z
+                        from ..quadmodel import sqrt_reduce
+                        if not sqrt_reduce(Rat(d.n)).is_zero():
+                            probs.append('%s is applied to an argument '
+                                         'whose operator term has the step '
+                                         '%r' % (opkey[1], c))
+                if nprox < 2 * niter:
+                    probs.append('only %d proximal applications found'
+                                 % nprox)
+                if probs:
+                    rep.violation('R5', 'pdhg', '%s: %s' % (tag, probs[0]),
+                                  c11.PDHG, fn.lineno)
+                else:
+                    rep.holds('R5', tag, '%d proximal applications use the '
+                              'current step sizes' % nprox)
+            except Undecided as e:
+                rep.undecided('R5', tag, str(e), c11.PDHG, fn.lineno)
+            except PyRaise as e:
+                rep.violation('R5', 'pdhg', '%s: raises %s' % (tag, e.name),
+                              c11.PDHG, fn.lineno)
